@@ -14,7 +14,9 @@ open TM TM.Eth
 
 structure St where
   v : Variant
-  s : State
+  w : World
+  cur : Bool        -- which of the two clients the ops address (`use a|b`)
+  rc : Bool         -- the tree under test compares header revisions (variant suffix `+rev`)
 
 def hexNat (s : String) : Option Nat :=
   if s = "-" then some 0 else
@@ -32,10 +34,10 @@ def hash64 (n : Nat) : String := String.ofList (natHexAux 64 n [])
 def emptyUncle : String := "1dcc4de8dec75d7aab85b567b6ccd41ad312451b948a7413f0a142fd40d49347"
 
 def dummy : Header :=
-  { parentHash := 0, uncleEmpty := true, root := 0, difficulty := 0, number := 0, gasLimit := 0, gasUsed := 0,
+  { parentHash := 0, uncleEmpty := true, root := 0, difficulty := 0, number := 0, rev := 0, gasLimit := 0, gasUsed := 0,
     time := 0, extraLen := 0, baseFee := 0, rest := 0 }
 
-def fresh : St := { v := .orig, s := initState { hash := fun h => h.rest, powOk := fun _ => true } 4 0 dummy }
+def fresh : St := { v := .orig, w := { a := some (initState { hash := fun h => h.rest, powOk := fun _ => true } 4 0 dummy), b := none }, cur := false, rc := false }
 
 /-- parsed header and its PoW bit -/
 def parseHeader : List String → Option (Header × Bool)
@@ -43,14 +45,17 @@ def parseHeader : List String → Option (Header × Bool)
     let ph ← hexNat ph
     let root ← hexNat root
     let diff ← diff.toNat?
-    let num ← num.toNat?
+    let (rev, num) ← (match num.splitOn "-" with
+      | [n] => n.toNat?.map (fun n => (0, n))
+      | [r, n] => do let r ← r.toNat?; let n ← n.toNat?; pure (r, n)
+      | _ => none)
     let gl ← gl.toNat?
     let gu ← gu.toNat?
     let time ← time.toNat?
     let ex ← unhex extra
     let bf ← bf.toNat?
     let hash ← hexNat hash
-    pure ({ parentHash := ph, uncleEmpty := uh == emptyUncle, root := root, difficulty := diff, number := num,
+    pure ({ parentHash := ph, uncleEmpty := uh == emptyUncle, root := root, difficulty := diff, number := num, rev := rev,
             gasLimit := gl, gasUsed := gu, time := time, extraLen := ex.length, baseFee := bf, rest := hash }, pow == "1")
   | _ => none
 
@@ -67,30 +72,52 @@ def dump (s : State) : String :=
     (fun (k, v) => toString k.1 ++ ":" ++ hash64 k.2 ++ ">" ++ toString v.2 ++ ":" ++ hash64 v.1)
   "H:" ++ hash64 s.head.rest ++ " C:" ++ orDash cons ++ " X:" ++ orDash hdr ++ " R:" ++ orDash rm
 
+def dumpCur (w : World) (i : Bool) : String :=
+  match w.get i with
+  | none => "-"
+  | some s => dump s
+
 def step (st : St) (line : String) : St × String :=
   match fields line with
   | "reset" :: v :: chain :: trusting :: rest =>
+    -- fresh history: no client but the first, which is created from the header
     match chain.toNat?, trusting.toNat?, parseHeader rest with
     | some chain, some tr, some (h, _) =>
-      let v := if v == "fixed" then Variant.fixed else Variant.orig
-      let s := initState (envOf true) chain tr h
-      ({ v := v, s := s }, "ok " ++ dump s)
+      let rc := (v.splitOn "+rev").length > 1
+      let v := if v.startsWith "fixed" then Variant.fixed else Variant.orig
+      let s := initStateR (envOf true) chain tr rc h
+      ({ v := v, w := { a := some s, b := none }, cur := false, rc := rc }, "ok " ++ dump s)
     | _, _, _ => (st, "bad-op")
+  | "create" :: chain :: trusting :: rest =>
+    -- CreateClient for the client currently addressed
+    match chain.toNat?, trusting.toNat?, parseHeader rest with
+    | some chain, some tr, some (h, _) =>
+      let s := initStateR (envOf true) chain tr st.rc h
+      ({ st with w := st.w.set st.cur s }, "ok " ++ dump s)
+    | _, _, _ => (st, "bad-op")
+  | ["use", x] =>
+    let i := x == "b"
+    ({ st with cur := i }, "ok " ++ dumpCur st.w i)
+  | ["restartapp"] =>
+    let w := st.w.restart
+    ({ st with w := w }, "ok " ++ dumpCur w false ++ " | " ++ dumpCur w true)
+  | ["restart"] =>
+    let w := st.w.restart
+    ({ st with w := w }, "ok " ++ dumpCur w false ++ " | " ++ dumpCur w true)
   | "upd" :: now :: rest =>
     match now.toNat?, parseHeader rest with
     | some now, some (h, pow) =>
-      match updateClient st.v (envOf pow) now st.s h with
-      | .ok s' => ({ st with s := s' }, "ok " ++ dump s')
+      match World.update st.v (envOf pow) now st.w st.cur h with
+      | .ok w' => ({ st with w := w' }, "ok " ++ dumpCur w' st.cur)
       | .err _ => (st, "err")
       | .panic _ => (st, "panic")
     | _, _ => (st, "bad-op")
   | "probe" :: now :: rest =>
     match now.toNat?, parseHeader rest with
     | some now, some (h, pow) =>
-      match updateClient st.v (envOf pow) now st.s h with
-      | .ok _ => (st, "ok")
-      | .err _ => (st, "err")
-      | .panic _ => (st, "panic")
+      let verdict := match World.update st.v (envOf pow) now st.w st.cur h with
+        | .ok _ => "ok" | .err _ => "err" | .panic _ => "panic"
+      ({ st with w := World.discarded st.v (envOf pow) now st.w st.cur h }, verdict)
     | _, _ => (st, "bad-op")
   | _ => (st, "bad-op")
 
